@@ -156,6 +156,8 @@ inline ref::Msg gen_msg(Chooser &c, const GenCfg &cfg) {
       if (cfg.api_buildable && rr.type == T_OPT && s != 2) rr.type = T_A;
       static const uint16_t rkl[] = {1, 1, 1, 1, 1, 1, 3, 4, 254};
       rr.klass = rkl[c.pick(9)]; if (!cfg.api_buildable && c.chance(1, 25)) rr.klass = c.u16();
+      // class ANY (RFC 2136 prerequisites, TSIG/TKEY): always legal on an undecoded type and on SIG; on a decoded type the parser may refuse it (outside the strict subset)
+      if (c.chance(1, 10) && (!ref::known_type(rr.type) || rr.type == T_SIG || !cfg.api_buildable)) rr.klass = 255;
       rr.ttl = gen_u32(c);
       gen_rdata(c, cfg, rr, seen);
       if (rr.type == T_OPT) { have_opt = true; ext = c.chance(2, 3) ? 0 : (uint8_t)(c.chance(1, 2) ? 1 : c.byte()); rr.ttl = (uint32_t)ext << 24; }
